@@ -141,4 +141,5 @@ P0 == {}
 P12 == {<<1, 2>>}
 P12_23 == {<<1, 2>>, <<2, 3>>}
 P12_21 == {<<1, 2>>, <<2, 1>>}
+PAll == {<<1, 2>>, <<2, 1>>, <<1, 3>>, <<3, 1>>, <<2, 3>>, <<3, 2>>}
 =============================================================================
